@@ -73,6 +73,12 @@ def unit_oracle(ctx, sp, o):
     v = {t: p[t] + cfv[t] * h[t] for t in steps}
     has_on = ('bool_on', None) in var
     has_start = ('bool_start', None) in var
+    for nm in ('bool_on', 'bool_start', 'bool_shutdown'):
+        if (nm, None) in var and set(var[(nm, None)]) != set(steps):
+            ctx.violation('impl-violation', {'spec': sp, 'unit': a, 'observed': {'steps named for ' + nm: sorted(var[(nm, None)]), 'steps of the unit': steps},
+                                             'expected': 'one binary per step of the unit, mapped to that step (running and start fuel are booked through this mapping)'},
+                          trigger={'what': 'binary variables mapped to other steps'})
+            return
     maxc = ref.pvec(a['max_cap'], sp, tp)
     tol = 1e-6 * (1 + float(np.nanmax(maxc)) * max(dt.values()))
     on = {t: (x[var[('bool_on', None)][t]] if has_on else (1.0 if v[t] > tol else 0.0)) for t in steps}
